@@ -27,7 +27,33 @@ visitor inventories of `Generated/PyExpr.lean` and by the correspondence streams
   (compared with `symtable` every run);
 * `adjustWhitespace` / `flushLoop` are `pygen.adjust_whitespace` / `PythonPrinter._flush_adjusted_lines`;
   `Spec.multiFlags` is an independent tokenizer-level reading of "this line starts inside a string literal or after a
-  backslash continuation", `Spec.remargin` / `Spec.reindent` / `Spec.roundtrip` what re-margining must do given that.
+  backslash continuation", `Spec.remargin` / `Spec.reindent` / `Spec.roundtrip` what re-margining must do given that;
+* `defTagDemands a reads` / `defTagDeclares a` are `DefTag.undeclared_identifiers()` / `.declared_identifiers()` of a
+  def with signature `a` whose defaults, `filter=` arguments and expression attributes read the names `reads`,
+  interpreted through the regenerated chain `DefTag` → `FunctionDecl.allargnames` → `ParseFunc`
+  (`MakoModel/PyExpr/DefAttr.lean`).
+
+The theorems, by section:
+
+* side conditions on regenerated tables and inventories (by `decide`): `symbols_agree`, `symbols_total`,
+  `kinds_without_visitor`, `wrapping_visitors`, `find_identifiers_inventory`, `fi_visitors`,
+  `def_tag_knows_all_parameters`;
+* printer: `print_total_partial`, `print_total_counterexample`; `print_complete_partial`,
+  `print_complete_counterexample`; `print_balanced`; `print_well_parenthesised_partial`,
+  `print_well_parenthesised_counterexample`, `print_well_parenthesised_counterexample_lambda`,
+  `print_well_parenthesised_counterexample_int`; `print_places_operands` (exact shape of the printed parent at the
+  fixed-arity `visit_operand` slots), `print_contains_operand_lists` (containment at the list-valued ones);
+* re-margining, lexer side (`adjust_whitespace`): `adjust_ws_spec_partial`, `in_multi_line_spec_partial`,
+  `adjust_ws_lines_preserved`, `adjust_ws_inside_untouched`, `adjust_ws_margin_removed`,
+  `adjust_ws_spec_counterexample`;
+* re-margining, printer side (`_flush_adjusted_lines` at any target indentation): `flush_adjusted_spec_partial`,
+  `flush_adjusted_block_spec_partial`, `flush_lines_preserved`, `flush_inside_untouched`, `flush_margin_replaced`,
+  `flush_adjusted_spec_counterexample`;
+* both passes composed: `remargin_roundtrip`, `remargin_roundtrip_inside`, `remargin_roundtrip_code`;
+* identifiers: `identifiers_exact_partial`, `identifiers_parameters_not_fetched`,
+  `identifiers_exact_counterexample_missing`;
+* a def's own parameters in its attributes: `def_attributes_never_demand_own_parameters`,
+  `def_declares_only_parameters`, `def_attributes_posonly_regression`.
 
 Every theorem quantifies over **all** expressions / statement blocks of the inductive types (unbounded depth; proofs
 by structural recursion over the mutual/nested syntax) or over **all** texts / lists of lines.
@@ -37,8 +63,10 @@ What is OPEN today (each with a `_partial` theorem, a `_counterexample` theorem 
 `print_well_parenthesised` (`yield`, decimal integer before `.attr`, slices in a tuple, a lambda / conditional
 expression pasted as filter callee), `adjust_ws_spec` and `flush_adjusted_spec` (the two line state machines against
 ordinary string literals, escapes, comments), `identifiers_exact` (comprehension variables, default values,
-decorators, classes, nested-function locals, `del`).  Unguarded: `def_attributes_never_demand_own_parameters`, `print_balanced`, the side conditions, and the
-theorems about `Spec.remargin` / `Spec.reindent` / `Spec.roundtrip` themselves.
+decorators, classes, nested-function locals, `del`).  Unguarded: `print_balanced`, `print_places_operands`,
+`print_contains_operand_lists`, `def_attributes_never_demand_own_parameters` (since 266703c),
+`def_declares_only_parameters`, the side conditions, and the theorems about `Spec.remargin` / `Spec.reindent` /
+`Spec.roundtrip` themselves.
 
 `OPEN` marks a full-strength statement that is false of the code as it stands: the `_partial` theorem carries an
 explicit decidable guard, the `_counterexample` theorem shows the model violating the full statement on a witness
@@ -136,14 +164,16 @@ theorem print_complete_counterexample :
 theorem print_balanced (e : Expr) (t : Toks) (hp : print e = some t) : ∀ d, bal d t = some d :=
   bal_print e t hp
 
-/- OPEN  print_well_parenthesised : ∀ e p c t, (p, c) ∈ e.children → needsParens p c.ck = true →
-           print c = some t → isWrapped (inSlot p c t) = true
+/- OPEN  print_well_parenthesised : ∀ p c t, needsParens p c.ck = true → print c = some t →
+           isWrapped (inSlot p c t) = true
+   (stated per slot `p` and occupant `c`, without a parent: every `(p, c) ∈ e.children` is such a pair, and so are
+   the two root slots)
    false today: `yield` and decimal integer literals are written bare whatever the slot; a tuple containing a
    slice is parenthesised where it must not be; a lambda / conditional expression used as a *filter* is pasted bare in
    front of `(…)` by codegen.  Repaired: conditional expressions and lambdas as operands (359f1bb). -/
 
 /-- **print_well_parenthesised_partial.** For every expression `c` and every slot `p` - a child slot of any
-parent node (`(p, c) ∈ e.children`) or one of the two places where mako pastes a re-emitted expression
+parent node (the pairs `(p, c)` of `Expr.children`; no parent appears in the statement) or one of the two places where mako pastes a re-emitted expression
 (`rootDefault`, `rootFilter`) - in which a bare expression of `c`'s class would not survive: what stands in the slot
 (`inSlot p c t`: `c`'s own text, parenthesised by the parent when the slot is written through `visit_operand` and `c`
 is a conditional expression or lambda) is one parenthesised group - provided `slotOK p c`: `c`'s own visitor
@@ -590,7 +620,14 @@ theorem identifiers_exact_counterexample_missing :
 
 /-- the regenerated chain `DefTag.undeclared_identifiers` → `FunctionDecl.allargnames` → `ParseFunc`: the def
 subtracts, and the def/block/page declare, `allargnames` = `argnames + kwargnames` = positional-only + ordinary +
-`*args` + keyword-only + `**kwargs` parameters -/
+`*args` + keyword-only + `**kwargs` parameters.
+`blockTagDeclared` / `pageTagDeclared` (what `BlockTag` / `PageTag.declared_identifiers()` return for `args="…"`) have
+no consumer other than this side condition: the model interprets only the def's two fields (`defTagDemands`,
+`defTagDeclares`); that a block and a page declare through the same `FunctionDecl` attribute is pinned here, so
+`defTagDeclares` reads verbatim for them, and a change of either fact breaks this theorem.  No subtraction fact exists
+for them: `BlockTag.undeclared_identifiers()` subtracts only the default-filter names, never the block's parameters,
+and `PageTag` has no `undeclared_identifiers` of its own (the recorded finding about `<%page expression_filter>`);
+both are exercised by the harness witnesses of `oracle.def-attributes` only. -/
 theorem def_tag_knows_all_parameters :
     String.ofList Generated.PyExpr.defTagSubtracted = "allargnames"
     ∧ String.ofList Generated.PyExpr.defTagDeclared = "allargnames"
